@@ -46,10 +46,13 @@ def bounds_ctx(F, rec, out):
         if out != a:
             ctx.distinct.add(frozenset((a, out)))
     if rec == 'SO2StateSpace':
-        # states normalised by enforceBounds: -pi <= value <= pi (the boundary itself is identified by LOOSE comparisons)
+        # in-bounds states exactly as SO2StateSpace::satisfiesBounds defines them: -pi <= value < pi.  The upper bound is
+        # strict, so a path that needs value >= pi (a re-wrap test written with >=) is infeasible for in-bounds inputs,
+        # while one that fires at value == -pi (a re-wrap test written with <=) is feasible and is judged
         for s in (A, Bs):
             v = Poly.atom(('rd', ('F', s, 'value')))
-            ctx.le0 += [v - PI, -v - PI]
+            ctx.lt0 += [v - PI]
+            ctx.le0 += [-v - PI]
     return ctx
 
 
@@ -320,11 +323,14 @@ def r07d(rep, F):
         if len(mono) == 1 and mono[0][1] == 1 and mono[0][0][0] == 'ite' and c == 1:
             v = long_ - Poly({mono: c})
             two_pi = PI.scale(2)
-            hi, lo = sym.cmp0('lt0', PI - v, ctx), sym.cmp0('lt0', v + PI, ctx)
-            # the two tests are mutually exclusive, so either nesting order is the same function
-            for want in (v + sym.ite(hi, -two_pi, sym.ite(lo, two_pi, Poly())), v + sym.ite(lo, two_pi, sym.ite(hi, -two_pi, Poly()))):
-                if sym._same(want, long_):
-                    ok = True
+            lo = sym.cmp0('lt0', v + PI, ctx)
+            # the two tests are mutually exclusive, so either nesting order is the same function; the upper test may be
+            # v > pi or v >= pi (the bounds are [-pi, pi): wrapping +pi to -pi is the better behaviour), the lower one
+            # must stay strict (v <= -pi would move the in-bounds value -pi to the out-of-bounds +pi)
+            for hi in (sym.cmp0('lt0', PI - v, ctx), sym.cmp0('le0', PI - v, ctx)):
+                for want in (v + sym.ite(hi, -two_pi, sym.ite(lo, two_pi, Poly())), v + sym.ite(lo, two_pi, sym.ite(hi, -two_pi, Poly()))):
+                    if sym._same(want, long_):
+                        ok = True
     rep.add('R07d', f.name, 'rewrap', ok, f.where(f.nodes[f.body]),
             'long-way value is re-wrapped into [-pi, pi] on both sides' if ok else
             'the long-way result %s is not v + (v > pi ? -2pi : (v < -pi ? 2pi : 0))' % shown)
